@@ -154,6 +154,7 @@ type Engine struct {
 	modMemo      map[*ssa.Function]*modInfo
 	modBusy      map[*ssa.Function]bool
 	fnByName     map[string]*ssa.Function
+	newHelpers   map[*ssa.Function]bool // shape.go: functions absent from the baseline, verified inlined
 	usedSpecs    map[string]bool
 	typeIDs      map[string]int
 	strConsts    map[string]string
